@@ -1,5 +1,6 @@
 """C11 - thresholds depend only on masked pixels and respect range and band limits."""
 import importlib.util
+import json
 import math
 import os
 from fractions import Fraction
@@ -8,7 +9,7 @@ import numpy as np
 
 ID = "C11"
 PROPS_FILE = "theories/Props/C11.v"
-EXTRACT = ("theories/Extract/XC11.v", "c11", ["entry_run", "entry_ref", "entry_check", "entry_fmul", "entry_otsu"])
+EXTRACT = ("theories/Extract/XC11.v", "c11", ["entry_run", "entry_ref", "entry_check", "entry_fmul", "entry_fmul32", "entry_otsu"])
 PYX = {}
 CASE_TIMEOUT = 120
 METHODS = ["Otsu", "MoG", "Background", "RobustBackground", "RidlerCalvard", "Kapur", "MCT"]
@@ -57,6 +58,10 @@ def gen_files(ctx):
 
 # ------------------------------------------------------------------ generation
 
+LDTYPES = ["int64", "int32", "int16", "int8", "uint8", "uint16", "uint32"]
+LAYOUTS = ["C", "C", "F", "strided", "readonly"]
+
+
 def _image(rng, H, W, kind):
     if kind == "uni":
         return rng.rand(H, W)
@@ -64,6 +69,10 @@ def _image(rng, H, W, kind):
         return np.where(rng.rand(H, W) < 0.3, 0.7 + 0.1 * rng.randn(H, W), 0.2 + 0.05 * rng.randn(H, W)).clip(0, 1)
     if kind == "quant":
         return rng.randint(0, 8, (H, W)) / 8.0
+    if kind == "const":
+        return np.full((H, W), float(rng.choice([0.0, 0.25, 1.0])))
+    if kind == "two":
+        return np.where(rng.rand(H, W) < 0.5, 0.25, 0.75)
     return rng.rand(H, W) * 0.05
 
 
@@ -71,53 +80,92 @@ def _mask(rng, H, W):
     u = rng.rand()
     if u < 0.12:
         return None
-    if u < 0.24:
+    if u < 0.22:
         return np.ones((H, W), bool)
-    if u < 0.40:
+    if u < 0.38:
         yy, xx = np.mgrid[0:H, 0:W]
         cy, cx, r = rng.uniform(0.3, 0.7) * H, rng.uniform(0.3, 0.7) * W, rng.uniform(0.3, 0.6) * min(H, W)
         return ((yy - cy) ** 2 + (xx - cx) ** 2) < r * r
+    if u < 0.44:                                   # degenerate: 0, 1 or 2 masked pixels
+        m = np.zeros((H, W), bool)
+        for _ in range(int(rng.randint(0, 3))):
+            m[int(rng.randint(H)), int(rng.randint(W))] = True
+        return m
     return rng.rand(H, W) < rng.choice([0.5, 0.7, 0.9])
 
 
-def _labels(rng, H, W):
+def _labels(rng, H, W, top=120):
     lab = np.zeros((H, W), int)
     u = rng.rand()
-    if u < 0.5:
+    if u < 0.4 and H >= 8 and W >= 8:
         lab[2:H // 2, 2:W // 2] = 1
         lab[H // 2 + 1:H - 2, W // 2 + 1:W - 2] = 2
         if rng.rand() < 0.5:
             lab[1:H // 3, W // 2 + 2:W - 1] = 3
-    else:
+    elif u < 0.8:
         n = int(rng.randint(1, 5))
         for k in range(1, n + 1):
-            y0, x0 = int(rng.randint(0, H - 4)), int(rng.randint(0, W - 4))
-            h, w = int(rng.randint(3, max(4, H // 2))), int(rng.randint(3, max(4, W // 2)))
+            y0, x0 = int(rng.randint(0, max(1, H - 3))), int(rng.randint(0, max(1, W - 3)))
+            h, w = int(rng.randint(2, max(3, H // 2))), int(rng.randint(2, max(3, W // 2)))
             blk = lab[y0:y0 + h, x0:x0 + w]
             blk[blk == 0] = k
-        if rng.rand() < 0.3:                      # an absent label number
-            lab[lab == n] = n + 1
+    else:                                          # label-free background: every pixel belongs to an object
+        k = int(rng.randint(1, 4))
+        lab[:] = 1 + (np.arange(W)[None, :] * k // W) + k * (np.arange(H)[:, None] * 2 // H)
+    if rng.rand() < 0.4:                           # sparse numbering (absent label numbers), within every int dtype
+        ids = [int(x) for x in np.unique(lab) if x > 0]
+        new = sorted(rng.choice(np.arange(1, top), len(ids), replace=False).tolist())
+        out = np.zeros_like(lab)
+        for o, nw in zip(ids, new):
+            out[lab == o] = nw
+        lab = out
     return lab
 
 
-def _thr_case(rng, method, mod, small=False):
+def _kwargs(rng, method):
+    """non-default values for every keyword parameter of the method (half of the cases keep the defaults)"""
+    if rng.rand() < 0.5:
+        return {}
+    if method == "Otsu":
+        return {"two_class_otsu": bool(rng.rand() < 0.5), "use_weighted_variance": bool(rng.rand() < 0.5),
+                "assign_middle_to_foreground": bool(rng.rand() < 0.5)}
     if method == "MoG":
-        sizes = [12, 16, 20] if mod == 1 else [16, 20, 24, 32]
+        return {"object_fraction": float(rng.choice([0.05, 0.1, 0.35, 0.5, 0.8]))}
+    if method == "RobustBackground":
+        return {"lower_outlier_fraction": float(rng.choice([0.0, 0.05, 0.2])),
+                "upper_outlier_fraction": float(rng.choice([0.0, 0.05, 0.3])),
+                "deviations_above_average": float(rng.choice([0.0, 1.0, 2.0, 3.5])),
+                "average_fn": str(rng.choice(["mean", "median", "binned_mode"])),
+                "variance_fn": str(rng.choice(["std", "mad"]))}
+    if method == "MCT":
+        return {"bins": int(rng.choice([16, 64, 256, 1000]))}
+    return {}
+
+
+def _thr_case(rng, method, mod, small=False):
+    u = rng.rand()
+    if u < 0.15:
+        sizes = [4, 5, 6, 8, 9]                    # tiny: blocks of 2-4 pixels, objects of a few pixels
+    elif method == "MoG":
+        sizes = [12, 16] if mod == 1 else [12, 16, 20, 24]
     else:
         sizes = [12, 16, 20, 24] if small else [12, 16, 20, 24, 32, 40, 48]
     H, W = int(rng.choice(sizes)), int(rng.choice(sizes))
-    kind = str(rng.choice(["uni", "bimodal", "quant", "dark"]))
+    kind = str(rng.choice(["uni", "bimodal", "quant", "dark", "uni", "bimodal", "quant", "dark", "const", "two"]))
     img = _image(rng, H, W, kind)
     mask = _mask(rng, H, W)
-    window = int(rng.choice([w for w in (4, 5, 6, 8, 10) if min(H, W) // w >= 2]))
+    wins = [w for w in (2, 3, 4, 5, 6, 8, 10) if min(H, W) // w >= 2]
+    window = int(rng.choice(wins))
     u = rng.rand()
-    if u < 0.35:
+    if u < 0.3:
         lo, hi = 0.0, 1.0
-    elif u < 0.6:
+    elif u < 0.5:
         lo, hi = 0.1, 0.6
-    elif u < 0.9:
+    elif u < 0.8:
         a, b = sorted(rng.rand(2).tolist())
         lo, hi = a * 0.5, min(1.0, b + 0.05)
+    elif u < 0.87:                                 # tight: a single admissible value
+        lo = hi = float(rng.choice([0.1, 0.25, float(rng.rand())]))
     elif mod == 0:
         lo, hi = [(None, None), (None, float(rng.rand())), (float(rng.rand() * 0.3), None)][int(rng.randint(3))]
     else:
@@ -127,10 +175,34 @@ def _thr_case(rng, method, mod, small=False):
     case = {"fn": "thr", "method": method, "mod": mod, "kind": kind, "img": img.tolist(),
             "mask": None if mask is None else mask.astype(int).tolist(),
             "labels": None, "lo": lo, "hi": hi, "cf": cf, "window": window,
-            "pert": ["zero", "one", "noise"], "pseed": int(rng.randint(1 << 30))}
+            "pert": ["zero", "one", "noise"], "pseed": int(rng.randint(1 << 30)),
+            "dtype": "float32" if rng.rand() < 0.3 else "float64",
+            "ldtype": str(rng.choice(LDTYPES)), "layout": str(rng.choice(LAYOUTS)),
+            "kw": _kwargs(rng, method)}
     if mod == 2 and rng.rand() < 0.8:
-        case["labels"] = _labels(rng, H, W).tolist()
+        top = {"int8": 127, "uint8": 255}.get(case["ldtype"], 1000)      # label numbers up to the dtype's range
+        case["labels"] = _labels(rng, H, W, top).tolist()
     return case
+
+
+def _mal_case(rng, what):
+    """malformed stream: inputs outside the property's quantifier; only outcome-level claims are made"""
+    method = str(rng.choice(METHODS[:1] + METHODS[2:]))          # not MoG (slow, nothing new here)
+    mod = int(rng.randint(3))
+    H, W = int(rng.choice([6, 8, 12, 16])), int(rng.choice([6, 8, 12, 16]))
+    c = _thr_case(rng, method, mod, small=True)
+    img = _image(rng, H, W, "uni")
+    c.update({"fn": "mal", "what": what, "img": img.tolist(), "mask": (rng.rand(H, W) < 0.7).astype(int).tolist(),
+              "labels": _labels(rng, H, W).tolist() if mod == 2 else None, "lo": 0.0, "hi": 1.0, "kw": {},
+              "window": int(rng.choice([w for w in (2, 3, 4) if min(H, W) // w >= 2])), "dtype": "float64"})
+    if what == "window_too_large":
+        c["mod"] = 1
+        c["window"] = int(min(H, W) // 2 + 1 + rng.randint(0, 6))
+    elif what == "uint8_mask":
+        c["mask_dtype"] = "uint8"
+    elif what == "int_image":
+        c["dtype"] = str(rng.choice(["uint8", "uint16", "int32"]))
+    return c
 
 
 def _otsu_case(rng):
@@ -174,19 +246,45 @@ def _fmul_cases(rng, n):
 
 def generate(ctx):
     rng = ctx.rng
-    cases = []
-    reps = ctx.n(8, 48)
+    thr = []
+    reps = ctx.n(9, 48)
     for r in range(reps):
         for method in METHODS:
             for mod in (0, 1, 2):
-                if method == "MoG" and mod == 1 and r % 3:
-                    continue                      # MoG per block is slow: a third of the share
-                cases.append(_thr_case(rng, method, mod))
-    for _ in range(ctx.n(300, 3000)):
+                if method == "MoG" and (r % 3 if mod != 1 else r % 6):
+                    continue                      # MoG is slow: a third of the share (a sixth per block)
+                thr.append(_thr_case(rng, method, mod))
+    # history independence (S4): a sample of the cases is run again, later, in another order, in the same
+    # process; the outputs must be identical
+    k = max(6, len(thr) // 6)
+    again = [int(i) for i in rng.choice(len(thr), k, replace=False)]
+    cases = list(thr)
+    for i in again:
+        if thr[i]["method"] == "MoG":
+            continue
+        c = dict(thr[i])
+        c["again_of"] = i
+        cases.append(c)
+    for what in ("window_too_large", "uint8_mask", "int_image"):
+        for _ in range(ctx.n(6, 40)):
+            cases.append(_mal_case(rng, what))
+    for _ in range(ctx.n(250, 3000)):
         cases.append(_otsu_case(rng))
     cases.extend(_fmul_cases(rng, ctx.n(300, 3000)))
     for c in cases:
-        ctx.count(c["fn"] if c["fn"] != "thr" else "thr:%s:%s" % (MODS[c["mod"]], c["kind"]))
+        if c["fn"] == "thr":
+            ctx.count("thr:%s" % MODS[c["mod"]])
+            ctx.count("thr:kind:%s" % c["kind"])
+            ctx.count("thr:dtype:%s" % c["dtype"])
+            ctx.count("thr:layout:%s" % c["layout"])
+            if c["kw"]:
+                ctx.count("thr:non_default_kwargs")
+            if "again_of" in c:
+                ctx.count("thr:history_replay")
+        elif c["fn"] == "mal":
+            ctx.count("mal:%s" % c["what"])
+        else:
+            ctx.count(c["fn"])
     return cases
 
 
@@ -194,34 +292,91 @@ def generate(ctx):
 
 def _same(a, b):
     a, b = np.asarray(a), np.asarray(b)
-    if a.shape != b.shape:
+    if a.shape != b.shape or a.dtype != b.dtype:
         return False
-    return bool(np.array_equal(a, b))          # thresholds are finite; NaN would (rightly) compare unequal
+    return bool(np.array_equal(a, b, equal_nan=True))
+
+
+def _layout(a, layout):
+    if a is None:
+        return None
+    if layout == "F":
+        return np.asfortranarray(a)
+    if layout == "strided":
+        big = np.zeros((2 * a.shape[0] + 1, 3 * a.shape[1] + 2), a.dtype)
+        v = big[1::2, 2::3]
+        v[...] = a
+        return v
+    a = a.copy()
+    if layout == "readonly":
+        a.setflags(write=False)
+    return a
+
+
+def _fn(name):
+    import centrosome.threshold as T
+    return {"mean": np.mean, "median": np.median, "binned_mode": T.binned_mode, "std": np.std, "mad": T.mad}[name]
+
+
+def _setup(case):
+    img = np.array(case["img"], float)
+    if case["dtype"] in ("float32", "float64"):
+        img = img.astype(case["dtype"])
+    else:
+        img = np.round(img * 255).astype(case["dtype"])
+    mask = None if case["mask"] is None else np.array(case["mask"], bool)
+    if mask is not None and case.get("mask_dtype"):
+        mask = mask.astype(case["mask_dtype"])
+    labels = None if case["labels"] is None else np.array(case["labels"]).astype(case["ldtype"])
+    kw = dict(case["kw"])
+    for k in ("average_fn", "variance_fn"):
+        if k in kw:
+            kw[k] = _fn(kw[k])
+    return img, mask, labels, kw
+
+
+def _outcome(f):
+    """('ok', local, global) or ('exc', type name): what a call is observed to do"""
+    try:
+        l, g = f()
+        return ("ok", l, g)
+    except Exception as e:
+        return ("exc", type(e).__name__)
+
+
+def _same_outcome(a, b):
+    if a[0] != b[0]:
+        return False
+    if a[0] == "exc":
+        return a[1] == b[1]
+    return _same(a[2], b[2]) and _same(a[1], b[1])
 
 
 def _impl_thr(case):
     import centrosome.threshold as T
-    img = np.array(case["img"], float)
-    mask = None if case["mask"] is None else np.array(case["mask"], bool)
-    labels = None if case["labels"] is None else np.array(case["labels"], int)
+    img, mask, labels, kw = _setup(case)
+    lay = case["layout"]
     method, mod = case["method"], MODS[case["mod"]]
     lo, hi, cf, window = case["lo"], case["hi"], case["cf"], case["window"]
 
     def call(im):
-        kw = dict(mask=None if mask is None else mask.copy(), threshold_range_min=lo, threshold_range_max=hi,
-                  threshold_correction_factor=cf, adaptive_window_size=window)
+        k = dict(mask=_layout(mask, lay), threshold_range_min=lo, threshold_range_max=hi,
+                 threshold_correction_factor=cf, adaptive_window_size=window)
         if labels is not None:
-            kw["labels"] = labels.copy()
-        return T.get_threshold(method, mod, im.copy(), **kw)
+            k["labels"] = _layout(labels, lay)
+        k.update(kw)
+        return T.get_threshold(method, mod, _layout(im, lay), **k)
 
-    l1, g1 = call(img)
-    out = {"g": float(g1), "scalar": not isinstance(l1, np.ndarray)}
-    l1b, g1b = call(img)
-    out["det"] = bool(g1 == g1b) and _same(l1, l1b)
-    # two-run non-interference: pixels outside the mask replaced
-    ni = {}
-    inmask = np.ones(img.shape, bool) if mask is None else mask
+    o1 = _outcome(lambda: call(img))
+    o1b = _outcome(lambda: call(img))
+    out = {"det": _same_outcome(o1, o1b)}
+    inmask = np.ones(img.shape, bool) if mask is None else mask.astype(bool)
     out["n_out"] = int((~inmask).sum())
+    vals = img[inmask]
+    out["distinct"] = int(min(4, len(np.unique(vals))))
+    out["vmin"], out["vmax"] = (float(vals.min()), float(vals.max())) if vals.size else (None, None)
+    # two-run non-interference: pixels outside the mask replaced; the OUTCOME (value or exception type) must not move
+    ni = {}
     prng = np.random.RandomState(case["pseed"])
     for p in case["pert"]:
         im2 = img.copy()
@@ -230,30 +385,47 @@ def _impl_thr(case):
         elif p == "one":
             im2[~inmask] = 1.0
         else:
-            im2[~inmask] = prng.rand(int((~inmask).sum()))
-        l2, g2 = call(im2)
-        ok = bool(g1 == g2) and _same(l1, l2)
-        ni[p] = ok
-        if not ok:
-            d = np.argwhere(np.asarray(l1) != np.asarray(l2))
-            out.setdefault("ni_detail", {})[p] = {"g": [float(g1), float(g2)],
-                                                   "first_pixel": d[0].tolist() if d.size else None}
+            im2[~inmask] = prng.rand(int((~inmask).sum())).astype(img.dtype)
+        o2 = _outcome(lambda: call(im2))
+        ni[p] = _same_outcome(o1, o2)
+        if not ni[p]:
+            d = {"outcomes": [o1[0], o2[0]]}
+            if o1[0] == o2[0] == "ok":
+                df = np.argwhere(np.asarray(o1[1]) != np.asarray(o2[1]))
+                d = {"g": [float(o1[2]), float(o2[2])], "first_pixel": df[0].tolist() if df.size else None}
+            out.setdefault("ni_detail", {})[p] = d
     out["ni"] = ni
+    # a mask that selects every pixel and no mask at all describe the same data
+    if mask is None or bool(np.all(inmask)):
+        other = np.ones(img.shape, bool) if mask is None else None
+
+        def call_other():
+            k = dict(mask=_layout(other, lay), threshold_range_min=lo, threshold_range_max=hi,
+                     threshold_correction_factor=cf, adaptive_window_size=window)
+            if labels is not None:
+                k["labels"] = _layout(labels, lay)
+            k.update(kw)
+            return T.get_threshold(method, mod, _layout(img, lay), **k)
+        out["mask_none_equiv"] = _same_outcome(o1, _outcome(call_other))
+    if o1[0] == "exc":
+        out["raised"] = o1[1]
+        return out
+    l1, g1 = o1[1], o1[2]
+    out["g"] = float(g1)
+    out["scalar"] = not isinstance(l1, np.ndarray)
+    out["f32"] = bool(isinstance(l1, np.ndarray) and l1.dtype == np.float32)
     # raw thresholds from the staged callees
-    mk = None if mask is None else mask.copy()
-    raw_g = T.get_global_threshold(method, img.copy(), mk)
+    mk = _layout(mask, lay)
+    raw_g = T.get_global_threshold(method, _layout(img, lay), mk, **kw)
     out["raw_g"] = float(raw_g)
-    vals = img[inmask]
-    out["distinct"] = int(min(4, len(np.unique(vals))))
-    out["vmin"], out["vmax"] = (float(vals.min()), float(vals.max())) if vals.size else (None, None)
     if mod == "Global":
         out["local"] = float(l1)
         return out
     if mod == "Adaptive":
-        raw_l = T.get_adaptive_threshold(method, img.copy(), g1, mk, adaptive_window_size=window)
+        raw_l = T.get_adaptive_threshold(method, _layout(img, lay), g1, mk, adaptive_window_size=window, **kw)
     else:
-        raw_l = T.get_per_object_threshold(method, img.copy(), g1, mk,
-                                           None if labels is None else labels.copy(), lo, hi)
+        lb = _layout(labels, lay)
+        raw_l = T.get_per_object_threshold(method, _layout(img, lay), g1, mk, lb, lo, hi, **kw)
         # per object: only that object's pixels matter (on the raw per-object thresholds; the final
         # ones also depend on the global threshold through the band)
         lab = labels
@@ -264,12 +436,16 @@ def _impl_thr(case):
         for k in [int(x) for x in np.unique(lab) if x > 0][:3]:
             own = (lab == k) & inmask
             im2 = img.copy()
-            im2[~own] = prng.rand(int((~own).sum()))
-            r2 = T.get_per_object_threshold(method, im2, g1, mk, None if labels is None else labels.copy(), lo, hi)
-            po[str(k)] = bool(np.array_equal(np.asarray(raw_l)[own], np.asarray(r2)[own]))
+            im2[~own] = prng.rand(int((~own).sum())).astype(img.dtype)
+            try:
+                r2 = T.get_per_object_threshold(method, _layout(im2, lay), g1, mk, lb, lo, hi, **kw)
+                po[str(k)] = bool(np.array_equal(np.asarray(raw_l)[own], np.asarray(r2)[own], equal_nan=True))
+            except Exception as e:
+                po[str(k)] = "exc:" + type(e).__name__     # another object's pixels made the call raise
         out["po"] = po
-    raw_l = np.asarray(raw_l, float)
-    l1 = np.asarray(l1, float)
+    out["raw_dtype_ok"] = bool(np.asarray(raw_l).dtype == l1.dtype or mod == "Adaptive")
+    raw_l = np.asarray(raw_l).astype(float)
+    l1 = np.asarray(l1).astype(float)
     out["shape_ok"] = bool(raw_l.shape == l1.shape == img.shape)
     lab0 = None
     if case["mod"] == 2 and labels is not None:
@@ -296,8 +472,27 @@ def _impl_thr(case):
     u = np.unique(l1[claim])
     out["n_claim"] = int(claim.sum())
     out["local_u"] = u.tolist() if u.size <= 64 else [float(u[0]), float(u[-1])] + prng.choice(u, 62).tolist()
-    out["clamped"] = [int((l1[claim] == u[0]).sum()) if u.size else 0, int(u.size)]
+    # float32 arrays: do the elements also respect the UN-rounded binary64 limits?  (reported, see findings)
+    if out["f32"] and u.size and lo is not None and hi is not None:
+        out["f32_outside_f64_limits"] = bool(u[0] < max(lo, g1 * 0.7) or u[-1] > min(hi, g1 * 1.5))
     return out
+
+
+def _impl_mal(case):
+    import centrosome.threshold as T
+    img, mask, labels, kw = _setup(case)
+    method, mod = case["method"], MODS[case["mod"]]
+
+    def call():
+        k = dict(mask=None if mask is None else mask.copy(), threshold_range_min=case["lo"],
+                 threshold_range_max=case["hi"], threshold_correction_factor=case["cf"],
+                 adaptive_window_size=case["window"])
+        if labels is not None:
+            k["labels"] = labels.copy()
+        return T.get_threshold(method, mod, img.copy(), **k)
+    o1, o2 = _outcome(call), _outcome(call)
+    return {"outcome": o1[0], "exc_name": o1[1] if o1[0] == "exc" else None, "det": _same_outcome(o1, o2),
+            "nblocks": int(min(img.shape) // case["window"])}
 
 
 def _impl_otsu(case):
@@ -335,7 +530,11 @@ def _impl_otsu(case):
 
 def impl(case):
     if case["fn"] == "fmul":
-        return {"p": float(np.float64(case["a"]) * np.float64(case["b"]))}
+        a32, b32 = np.float32(case["a"]), np.float32(case["b"])
+        return {"p": float(np.float64(case["a"]) * np.float64(case["b"])), "a32": float(a32),
+                "p32": float((np.array([a32]) * np.array([b32]))[0])}
+    if case["fn"] == "mal":
+        return _impl_mal(case)
     return _impl_thr(case) if case["fn"] == "thr" else _impl_otsu(case)
 
 
@@ -366,7 +565,7 @@ def _finite(o):
 def _run_arg(case, o):
     return [case["mod"], _q(case["cf"]), _q(o["raw_g"]), _optq(case["lo"]), _optq(case["hi"]),
             [] if o["scalar"] else [_q(v) for v in o["raw_l"]],
-            [] if (o["scalar"] or o["lab0_s"] is None) else [o["lab0_s"]]]
+            [] if (o["scalar"] or o["lab0_s"] is None) else [o["lab0_s"]], 1 if o.get("f32") else 0]
 
 
 def _rejected(case):
@@ -378,17 +577,19 @@ def model(ctx, cases, outs):
     ti = []
     args = []
     for k, (c, o) in enumerate(zip(cases, outs)):
-        if c["fn"] != "thr":
+        if c["fn"] != "thr" or _bad(o):
             continue
         if _rejected(c):
-            # the implementation raised before any raw threshold could be observed: run the model on dummies
+            # the implementation raises before any raw threshold can be observed: run the model on dummies
             ti.append(k)
-            args.append([c["mod"], _q(c["cf"]), _q(0.5), _optq(c["lo"]), _optq(c["hi"]), [_q(0.25)], []])
-        elif not _bad(o):
-            if not _finite(o):
-                ctx.count("excluded_nonfinite")
-                res[k] = "nonfinite"
-                continue
+            args.append([c["mod"], _q(c["cf"]), _q(0.5), _optq(c["lo"]), _optq(c["hi"]), [_q(0.25)], [], 0])
+        elif "raised" in o:
+            ctx.count("thr:raised:%s" % o["raised"])
+            res[k] = "raised"
+        elif not _finite(o):
+            ctx.count("excluded_nonfinite")
+            res[k] = "nonfinite"
+        else:
             ti.append(k)
             args.append(_run_arg(c, o))
     # the interpreter on the regenerated program AND the specified closed form (Spec.ThresholdSpec.ref_run)
@@ -400,8 +601,9 @@ def model(ctx, cases, outs):
         if _tied(r):
             ctx.count("otsu_argmin_illconditioned_not_compared")
     fi = [k for k, c in enumerate(cases) if c["fn"] == "fmul"]
-    for k, r in zip(fi, ctx.run_model("entry_fmul", [[_q(cases[k]["a"]), _q(cases[k]["b"])] for k in fi])):
-        res[k] = r
+    fa = [[_q(cases[k]["a"]), _q(cases[k]["b"])] for k in fi]
+    for k, r, r32 in zip(fi, ctx.run_model("entry_fmul", fa), ctx.run_model("entry_fmul32", fa)):
+        res[k] = [r, r32]
     return res
 
 
@@ -439,17 +641,26 @@ def compare(case, out, m):
     if case["fn"] == "fmul":
         if _bad(out) or not math.isfinite(out["p"]):
             return "binary64 product failed: %s" % (out,)
-        return None if _fr(m) == Fraction(out["p"]) else "fmul %r * %r: hardware %r, model %r" % (
-            case["a"], case["b"], out["p"], float(_fr(m)))
+        if _fr(m[0]) != Fraction(out["p"]):
+            return "fmul %r * %r: hardware %r, model %r" % (case["a"], case["b"], out["p"], float(_fr(m[0])))
+        if math.isfinite(out["p32"]) and math.isfinite(out["a32"]) and (
+                _fr(m[1][0]) != Fraction(out["a32"]) or _fr(m[1][1]) != Fraction(out["p32"])):
+            return "binary32: float32(%r) = %r, product with float32(%r) = %r; model %r, %r" % (
+                case["a"], out["a32"], case["b"], out["p32"], float(_fr(m[1][0])), float(_fr(m[1][1])))
+        return None
+    if case["fn"] == "mal":
+        return None
     if case["fn"] == "thr":
+        if _bad(out):
+            return "implementation crashed: %s" % (str(out)[:300],)
         if _rejected(case):
-            if not (isinstance(out, dict) and out.get("exc") == "TypeError"):
+            if out.get("raised") != "TypeError":
                 return "range limit None with an array modifier: expected TypeError, implementation gave %s" % (str(out)[:200],)
             return None if m == [[], []] else "model accepts a None range limit with an array modifier"
-        if _bad(out):
-            return "implementation raised/crashed: %s" % (str(out)[:300],)
-        if m == "nonfinite":
+        if m in ("nonfinite", "raised"):
             return None
+        if not out["scalar"] and not out["raw_dtype_ok"]:
+            return "raw and final per-object thresholds have different dtypes"
         for which, mm in zip(("model of the regenerated program", "specified closed form"), m):
             d = _cmp_run(out, mm)
             if d:
@@ -470,6 +681,27 @@ def compare(case, out, m):
 
 # ------------------------------------------------------------------ the property on the implementation's output
 
+def _strip(c):
+    return {k: v for k, v in c.items() if k != "again_of"}
+
+
+def _fresh_replay(ctx, cases, outs, res):
+    """S4 history independence: the cases that were run twice in the main process are run once more in a
+    FRESH process, in reverse order; the three observations of each must coincide."""
+    ks = [k for k, c in enumerate(cases) if c["fn"] == "thr" and "again_of" in c and c["again_of"] < k
+          and _strip(cases[c["again_of"]]) == _strip(c)]
+    if not ks:
+        return
+    sub = [_strip(cases[k]) for k in reversed(ks)]
+    fresh = ctx.run_impl(sub)
+    ctx.count("thr:fresh_process_replay", len(sub))
+    for k, o2 in zip(reversed(ks), fresh):
+        j = cases[k]["again_of"]
+        if res[k] is None and res[j] is None and json.dumps(o2, sort_keys=True) != json.dumps(outs[j], sort_keys=True):
+            res[j] = ("S4 history dependence: the same call gives a different result in a fresh process "
+                      "(here %s, fresh %s)" % (str(outs[j].get("g")), str(o2.get("g") if isinstance(o2, dict) else o2)))
+
+
 def check(ctx, cases, outs):
     res = [None] * len(cases)
     ci, args = [], []
@@ -477,21 +709,43 @@ def check(ctx, cases, outs):
     for k, (c, o) in enumerate(zip(cases, outs)):
         if c["fn"] == "fmul":
             continue
-        if c["fn"] == "thr":
-            if _rejected(c):
-                continue
+        if c["fn"] == "mal":
             if _bad(o):
-                res[k] = "get_threshold raised/crashed on a valid input: %s" % (str(o)[:300],)
+                res[k] = "get_threshold crashed/hung on a malformed input: %s" % (str(o)[:300],)
+            elif not o["det"]:
+                res[k] = "S4 determinism (malformed input %s): two identical calls behaved differently" % c["what"]
+            elif c["what"] == "window_too_large" and not (o["outcome"] == "exc" and o["exc_name"] == "ValueError"):
+                res[k] = "adaptive window larger than half the image was not rejected with ValueError: %s" % (o,)
+            continue
+        if c["fn"] == "thr":
+            if _bad(o):
+                res[k] = "get_threshold crashed/hung: %s" % (str(o)[:300],)
                 continue
             if not o["det"]:
                 res[k] = "S4 determinism: two identical calls returned different thresholds"
+                continue
+            if ("again_of" in c and c["again_of"] < k and _strip(cases[c["again_of"]]) == _strip(c)
+                    and json.dumps(o, sort_keys=True) != json.dumps(outs[c["again_of"]], sort_keys=True)):
+                res[k] = ("S4 history dependence: the same call gave a different result later in the same process "
+                          "(first %s, later %s)" % (str(outs[c["again_of"]].get("g")), str(o.get("g"))))
+                continue
+            if o.get("mask_none_equiv") is False:
+                res[k] = "S1: mask=None and a mask selecting every pixel give different results"
                 continue
             badp = [p for p, ok in o["ni"].items() if not ok]
             if badp:
                 res[k] = "S1 non-interference: replacing pixels outside the mask (%s) changed the result: %s" % (
                     ",".join(badp), o.get("ni_detail"))
                 continue
-            badk = [p for p, ok in o.get("po", {}).items() if not ok]
+            if _rejected(c):
+                continue
+            if "raised" in o:
+                plain = (not c["kw"] and o["distinct"] >= 3 and min(len(c["img"]), len(c["img"][0])) >= 12
+                         and c["dtype"] == "float64")
+                if plain:
+                    res[k] = "get_threshold raised %s on a valid input (default keyword arguments)" % o["raised"]
+                continue
+            badk = [p for p, ok in o.get("po", {}).items() if ok is not True]
             if badk:
                 res[k] = "S1 per object: pixels outside object %s changed its raw per-object threshold" % ",".join(badk)
                 continue
@@ -499,12 +753,15 @@ def check(ctx, cases, outs):
                 continue
             if c["lo"] is not None and c["hi"] is not None and c["lo"] > c["hi"]:
                 continue
+            if o.get("f32_outside_f64_limits"):
+                ctx.count("f32_local_outside_binary64_limits(candidate finding)")
             ts = [o["local"]] if o["scalar"] else o["local_u"]
             ci.append(k)
-            args.append([_optq(c["lo"]), _optq(c["hi"]), _q(o["g"]), 0 if o["scalar"] else 1, [_q(t) for t in ts]])
-            if c["method"] in BRACKET and o["distinct"] >= 3:
+            args.append([_optq(c["lo"]), _optq(c["hi"]), _q(o["g"]), 0 if o["scalar"] else 1, [_q(t) for t in ts],
+                         1 if o.get("f32") else 0])
+            if c["method"] in BRACKET and o["distinct"] >= 3 and not c["kw"]:
                 bi.append(k)
-                bargs.append([_optq(o["vmin"]), _optq(o["vmax"]), _q(o["raw_g"]), 0, []])
+                bargs.append([_optq(o["vmin"]), _optq(o["vmax"]), _q(o["raw_g"]), 0, [], 0])
         else:
             if _bad(o):
                 res[k] = "otsu raised/crashed: %s" % (str(o)[:300],)
@@ -529,6 +786,7 @@ def check(ctx, cases, outs):
                         ctx.count("%s_raised_%s" % (name, o[name]["skipped"]))
                     elif not o[name]["perm"] or not o[name]["nan"]:
                         res[k] = "S6 %s is not invariant under permutation / NaN insertion" % name
+    _fresh_replay(ctx, cases, outs, res)
     for k, r in zip(ci, ctx.run_model("entry_check", args)):
         if r != 1:
             c, o = cases[k], outs[k]
@@ -563,8 +821,8 @@ def nontrivial(case, out):
     if _bad(out):
         return False
     if case["fn"] == "thr":
-        return (not _rejected(case)) and out["distinct"] >= 3 and out["n_out"] > 0
-    if case["fn"] == "fmul":
+        return (not _rejected(case)) and "raised" not in out and out["distinct"] >= 3 and out["n_out"] > 0
+    if case["fn"] in ("fmul", "mal"):
         return False
     return len(set(case["ints"])) >= 3
 
@@ -572,7 +830,7 @@ def nontrivial(case, out):
 def kernel_crosscheck(ctx, cases, outs):
     idx, args, exp = [], [], []
     for k, (c, o) in enumerate(zip(cases, outs)):
-        if c["fn"] != "thr" or _bad(o) or _rejected(c) or not _finite(o):
+        if c["fn"] != "thr" or _bad(o) or _rejected(c) or "raised" in o or not _finite(o):
             continue
         a = _run_arg(c, o)
         if not o["scalar"]:
@@ -613,7 +871,9 @@ def search_cases(ctx, rnd):
 
 
 def shrink_candidates(case):
-    if case["fn"] == "fmul":
+    if case["fn"] in ("fmul", "mal"):
+        return
+    if "again_of" in case:
         return
     if case["fn"] == "otsu":
         v = case["ints"]
@@ -650,6 +910,14 @@ def shrink_candidates(case):
             yield dict(case, pert=[p])
     if case["cf"] != 1.0:
         yield dict(case, cf=1.0)
+    if case["layout"] != "C":
+        yield dict(case, layout="C")
+    if case["dtype"] != "float64":
+        yield dict(case, dtype="float64")
+    if case["kw"]:
+        yield dict(case, kw={})
+    if case["ldtype"] != "int64":
+        yield dict(case, ldtype="int64")
     q = (np.round(img * 8) / 8.0)
     if not np.array_equal(q, img):
         yield dict(case, img=q.tolist())
